@@ -9,6 +9,7 @@ import (
 	"sort"
 	"strconv"
 	"strings"
+	"time"
 
 	"golang.org/x/tools/go/ssa"
 )
@@ -721,7 +722,11 @@ func init() {
 	}
 	m["(time.Duration).String"] = func(ex *Exec, c *frame, fn *ssa.Function, a []value) value {
 		d := a[0].(*Term)
-		return ex.tc.UF("durationString", StrSort, d)
+		if d.IsConst() {
+			return ex.tc.StrConst(time.Duration(signExt(d.u, 64)).String())
+		}
+		// every Duration string ends in "s" ("0s", "1.5s", "2m0s")
+		return ex.tc.StrConcat(ex.tc.UF("durationString", StrSort, d), ex.tc.StrConst("s"))
 	}
 	m["(time.Time).String"] = func(ex *Exec, c *frame, fn *ssa.Function, a []value) value {
 		return ex.tc.StrConst("<time>")
